@@ -865,8 +865,11 @@ func NormAtom(c ssa.Value, pol bool) string {
 			if !pol {
 				op = negOp[op]
 			}
-			// (the operand order is canonical already: Prog.canonComparisons)
-			return Desc(x.X) + " " + op.String() + " " + Desc(x.Y)
+			// (the operand order is canonical already: Prog.canonComparisons — except when a
+			// parameter of an inlined helper is rendered as the caller's argument, which
+			// may sort differently: the text is put into the same order again)
+			c, _ := canonLit(Desc(x.X) + " " + op.String() + " " + Desc(x.Y))
+			return c
 		}
 	case *ssa.UnOp:
 		if x.Op == token.NOT {
